@@ -76,6 +76,11 @@ type Case struct {
 	// than the injecting one, so the requests of the burst really are pending
 	// together; the frames are released when the burst is complete.
 	Hold []bool `json:"hold,omitempty"`
+	// Ops[i], applied before burst i once the previous burst has drained:
+	// 1 removes the second own address (both families) from the interface,
+	// 2 assigns it again. A request to that address counts as addressed to
+	// someone else while the address is removed.
+	Ops []int `json:"ops,omitempty"`
 }
 
 // ---------------------------------------------------------------------------
@@ -364,6 +369,8 @@ type sent struct {
 	odd      bool
 	nviews   int
 	answered bool
+	owned    bool // the destination was assigned to the interface when the request was injected
+	required bool // owned, and fewer than ten requests can have been pending when it arrived
 }
 
 func (s *sent) String() string {
@@ -422,10 +429,12 @@ func judge(trace []netsim.Frame, sents []*sent) (*evid.Failure, []*sent) {
 				}
 			}
 			switch {
-			case id && seq && pay && toRequester && !s.r.owned():
+			case id && seq && pay && toRequester && !s.owned:
 				pick(&unowned)
 			case id && seq && pay && toRequester && fromPinged && !s.answered:
-				if exact == nil {
+				// identical requests are interchangeable: credit one that must be
+				// answered before one that may have been dropped (beyond nine pending)
+				if exact == nil || (s.required && !exact.required) {
 					exact = s
 				}
 			case id && seq && pay && toRequester && fromPinged:
@@ -473,7 +482,7 @@ func judge(trace []netsim.Frame, sents []*sent) (*evid.Failure, []*sent) {
 	}
 	var un []*sent
 	for _, s := range sents {
-		if s.r.Kind == "echo" && s.r.owned() && !s.answered {
+		if s.r.Kind == "echo" && s.required && !s.answered {
 			un = append(un, s)
 		}
 	}
@@ -519,6 +528,8 @@ func boundary(v uint16) bool {
 	return false
 }
 
+var dbgTrace bool
+
 // runOnce plays the case on a fresh stack. fail is a safety violation (final),
 // miss an owned request still unanswered when the deadline passed (to confirm).
 func runOnce(c Case, deadline time.Duration, rec bool) (fail, miss *evid.Failure) {
@@ -561,9 +572,34 @@ func runOnce(c Case, deadline time.Duration, rec bool) (fail, miss *evid.Failure
 	})
 	var sents []*sent
 	n := 0
+	removedB := false
 	for bi, burst := range c.Bursts {
-		if len(burst) > 9 {
-			burst = burst[:9] // never ten or more pending: the statement only promises answers below that
+		if len(burst) > 40 {
+			burst = burst[:40]
+		}
+		if bi < len(c.Ops) && c.Ops[bi] != 0 {
+			// the previous burst has drained (see below); let the repliers drop their route references
+			time.Sleep(30 * time.Millisecond)
+			switch {
+			case c.Ops[bi] == 1 && !removedB:
+				e4, e6 := st.RemoveAddress(1, netsim.B4), st.RemoveAddress(1, netsim.B6)
+				if e4 != nil || e6 != nil {
+					return evid.Failf("remove-address", "RemoveAddress of an assigned address failed: %v / %v", e4, e6), nil
+				}
+				removedB = true
+				if rec {
+					evid.Label("op:remove-address")
+				}
+			case c.Ops[bi] == 2 && removedB:
+				e4, e6 := st.AddAddress(1, ipv4.ProtocolNumber, netsim.B4), st.AddAddress(1, ipv6.ProtocolNumber, netsim.B6)
+				if e4 != nil || e6 != nil {
+					return evid.Failf("add-address", "AddAddress of an address that had been removed failed: %v / %v (a removed address is not released)", e4, e6), nil
+				}
+				removedB = false
+				if rec {
+					evid.Label("op:re-add-address")
+				}
+			}
 		}
 		hold := bi < len(c.Hold) && c.Hold[bi]
 		if hold {
@@ -586,6 +622,16 @@ func runOnce(c Case, deadline time.Duration, rec bool) (fail, miss *evid.Failure
 				}
 			}
 			s := &sent{r: r, burst: bi, i: i, src: r.srcAddr(), dst: r.dstAddr(), payload: payload(r.PMode, r.PSeed, r.PLen)}
+			s.owned = r.Dst == 0 || (r.Dst == 1 && !removedB)
+			// "while fewer than ten requests are pending every request is answered":
+			// the i-th message of a burst finds at most i earlier ones pending
+			s.required = s.owned && i < 9
+			if rec && r.Kind == "echo" && r.Dst == 1 && removedB {
+				evid.Label("req:to-removed-address")
+			}
+			if rec && r.Kind == "echo" && s.owned && !s.required {
+				evid.Label("req:beyond-nine-pending(optional)")
+			}
 			n++
 			pk := r.packets(uint16(0x4000 + 131*n))
 			proto := tcpip.NetworkProtocolNumber(ipv4.ProtocolNumber)
@@ -627,10 +673,22 @@ func runOnce(c Case, deadline time.Duration, rec bool) (fail, miss *evid.Failure
 			}
 			rem := time.Until(end)
 			if rem <= 0 {
+				if dbgTrace {
+					for _, s := range sents {
+						fmt.Printf("sent burst %d #%d at=%d answered=%v owned=%v required=%v %s plen=%d\n", s.burst, s.i, s.at, s.answered, s.owned, s.required, s.r.fam(), s.r.PLen)
+					}
+					for _, f := range tr {
+						fmt.Println("  ", frameStr(f))
+					}
+				}
 				return nil, evid.Failf("unanswered:"+un[0].r.fam(), "no echo reply within %v for a request to an owned address with only %d messages in the burst: %s\n  stack counters: %s",
 					deadline, len(burst), un[0], netsim.StatsString(st))
 			}
 			tap.Scan(len(tr), rem, func(netsim.Frame) bool { return true })
+		}
+		if len(burst) > 9 || (bi+1 < len(c.Ops) && c.Ops[bi+1] != 0) {
+			// optional requests (beyond nine pending) are answered or dropped: wait until the wire is quiet
+			tap.Quiesce(5*time.Millisecond, 500*time.Millisecond)
 		}
 	}
 	// anything that still trickles out (second replies, replies for someone else)
@@ -923,7 +981,12 @@ func genCase(rt *rapid.T) Case {
 	}
 	burstGen := rapid.Custom(func(rt *rapid.T) protoBurst {
 		var b protoBurst
-		switch rapid.IntRange(0, 5).Draw(rt, "burst-kind") {
+		switch rapid.IntRange(0, 6).Draw(rt, "burst-kind") {
+		case 6: // flood: more than the echo queue holds, held or not, to one owned address
+			b.hold = rapid.Bool().Draw(rt, "flood-held")
+			fo := &focus{v6: rapid.Bool().Draw(rt, "focus-v6"), dst: rapid.IntRange(0, 1).Draw(rt, "focus-dst")}
+			n := rapid.SampledFrom([]int{10, 11, 12, 15, 24, 40}).Draw(rt, "flood-size")
+			b.reqs = rapid.SliceOfN(reqGen(fo), n, n).Draw(rt, "flood-requests")
 		case 5: // held, all requests to one owned address: they queue up behind the first reply
 			b.hold = true
 			fo := &focus{v6: rapid.Bool().Draw(rt, "focus-v6"), dst: rapid.IntRange(0, 1).Draw(rt, "focus-dst")}
@@ -956,6 +1019,7 @@ func genCase(rt *rapid.T) Case {
 		}
 		c.Bursts = append(c.Bursts, burst)
 		c.Hold = append(c.Hold, b.hold)
+		c.Ops = append(c.Ops, rapid.SampledFrom([]int{0, 0, 0, 0, 0, 1, 1, 2}).Draw(rt, "addr-op"))
 	}
 	return c
 }
